@@ -26,6 +26,24 @@ WRITERS = re.compile(r"arc_swap::.*::(store|swap|rcu|compare_and_swap)$|ArcSwapA
 LOADS = re.compile(r"ArcSwapAny::(load|load_full|load_signal_safe)$|arc_swap::.*Cache")
 
 
+def lock_drops(b):
+    """positions where a method of the exclusive guard releases the update lock: drop of the by-value self (or of the MutexGuard
+    moved out of it), or self / the guard moved into a call (mem::drop(..)) other than the ArcSwap writer itself"""
+    drops = []
+
+    def holds_lock(term):
+        d = deep_strip(term)
+        return d[:2] == ('param', 1) or (d[0] == 'field' and d[2] == '_guard' and deep_strip(d[1])[:2] == ('param', 1))
+    for pos, t in b.terms():
+        if t["k"] == "drop" and (t["pl"]["l"] == 1 or ("p" not in t["pl"] and holds_lock(b.local_term(t["pl"]["l"], pos, 0)))):
+            drops.append(pos)
+        if t["k"] == "call" and not WRITERS.search(canon(t.get("resolved") or t.get("callee") or "")):
+            for a2 in t["args"]:
+                if a2["k"] == "move" and "p" not in a2["pl"] and holds_lock(b.term(a2, pos)) and b.local_ty(a2["pl"]["l"]).k == "adt":
+                    drops.append(pos)
+    return drops
+
+
 def run(ctx, progs):
     for cfg, prog in progs.items():
         ctx.config = cfg
@@ -44,8 +62,19 @@ def run(ctx, progs):
         for b, c in stores:
             root = prog.by_id.get(b.root, b)
             ok = root.self_adt == EXCL and root.name == "replace"
+            why = ""
+            if not ok and root.self_adt == EXCL and b is root:
+                # another method of the exclusive guard (a sibling of replace): it may publish too, provided it stores a freshly built
+                # Arc into self.parent.inner.0 — the ArcSwap paired with the mutex whose guard `self` holds — while that guard is
+                # still alive: no drop / move-out of self (or of its MutexGuard) can reach the store
+                tgt = deep_strip(b.call_term(c.t, c.pos, 0))
+                tgt_ok = match(C("ArcSwapAny::store", F(C("Deref::deref", F(F(P(1), "parent"), "inner")), "0"), C("Arc::new", ANY)), tgt, {})
+                drops = lock_drops(b)
+                held = all(c.pos[0] not in b.reachable(d[0]) and not (d[0] == c.pos[0] and d[1] < c.pos[1]) for d in drops)
+                ok = bool(tgt_ok) and held
+                why = f"; sibling of replace: stores Arc::new(..) into self.parent.inner.0 [{bool(tgt_ok)}], no release of self / its MutexGuard reaches the store [{held}, {len(drops)} release point(s)]"
             ctx.ob("R11.1.only_replace_stores", f"{b.key}|{canon(c.target).split('::')[-1]}", ok, c.where(),
-                   "ArcSwap writer call" + ("" if ok else " outside GuestMemoryExclusiveGuard::replace: a store that does not hold the update lock can lose a replacement"))
+                   "ArcSwap writer call" + why + ("" if ok else " — outside GuestMemoryExclusiveGuard (or not under its lock): a store that does not hold the update lock can lose a replacement"))
         DIRECT = C("ArcSwapAny::load", F(C("Deref::deref", F(P(1), "inner")), "0"))
         mem_bodies = prog.find(adt=ATOM, trait="guest_memory::GuestAddressSpace", name="memory")
         for b, c in loads:
@@ -80,19 +109,7 @@ def run(ctx, progs):
             e = {}
             store_ok = match(C("ArcSwapAny::store", F(C("Deref::deref", F(F(P(1), "parent"), "inner")), "0"), C("Arc::new", P(2))), deep_strip(b.call_term(st[0].t, st[0].pos, 0)), e)
         # drop of self (or of its _guard field) must come after the store on every path
-        drops = []
-        def holds_lock(term):
-            """the by-value self, or the MutexGuard moved out of it (`let Self { parent, _guard: g } = self;`)"""
-            d = deep_strip(term)
-            return d[:2] == ('param', 1) or (d[0] == 'field' and d[2] == '_guard' and deep_strip(d[1])[:2] == ('param', 1))
-        for pos, t in b.terms():
-            if t["k"] == "drop" and (t["pl"]["l"] == 1 or ("p" not in t["pl"] and holds_lock(b.local_term(t["pl"]["l"], pos, 0)))):
-                drops.append(pos)
-            # explicit release: self (or its guard) moved into a call (mem::drop(..)) — other than the store itself
-            if t["k"] == "call" and not WRITERS.search(canon(t.get("resolved") or t.get("callee") or "")):
-                for a2 in t["args"]:
-                    if a2["k"] == "move" and "p" not in a2["pl"] and holds_lock(b.term(a2, pos)) and b.local_ty(a2["pl"]["l"]).k == "adt":
-                        drops.append(pos)
+        drops = lock_drops(b)
         order_ok = bool(st) and all(b.pos_dominates(st[0].pos, d) for d in drops) and bool(drops)
         # `map` not used after the store
         used_after = False
@@ -115,12 +132,13 @@ def run(ctx, progs):
             # `match lock() { Ok(g) => .., Err(e) => .. }` and `lock().map(|g| ..).map_err(|e| ..)` build the same guards: read the
             # fields in the term space of lock() itself
             f = dict(zip(s["rv"]["fields"], [unref(eff.in_parent(b2, b2.term(o, pos))[1]) for o in s["rv"]["ops"]]))
-            lock = C("Mutex::lock", F(C("Deref::deref", F(P(1), "inner")), "1"))
+            # lock() and a non-blocking try_lock() of the SAME mutex both hand out the one MutexGuard there is
+            lock = ALT(C("Mutex::lock", F(C("Deref::deref", F(P(1), "inner")), "1")), C("Mutex::try_lock", F(C("Deref::deref", F(P(1), "inner")), "1")))
             g = f.get("_guard")
             g_ok = g is not None and (match(OKP(lock), g, {}) or match(C("PoisonError::into_inner", ANY), g, {}) and any(match(lock, x, {}) for x in subterms(g)))
-            ok = root.self_adt == ATOM and root.name == "lock" and f.get("parent", ('x',))[:2] == ('param', 1) and g_ok
+            ok = root.self_adt == ATOM and f.get("parent", ('x',))[:2] == ('param', 1) and g_ok
             ctx.ob("R11.3.guard_from_lock", f"{b2.key}", ok, b2.where(s["ln"]),
-                   f"exclusive guard {{ parent: {tstr(f.get('parent'))}, _guard: {tstr(g)[:80] if g else '?'} }} must be built in lock() from self and the guard of self.inner.1 — the mutex paired with the ArcSwap `replace` stores into")
+                   f"exclusive guard {{ parent: {tstr(f.get('parent'))}, _guard: {tstr(g)[:80] if g else '?'} }} must be built by a method of the replaceable memory from self and the (try_)lock guard of self.inner.1 — the mutex paired with the ArcSwap `replace` stores into")
         a = prog.adts[EXCL]
         ctx.ob("R11.3.guard_private", EXCL, all(f["vis"] != "pub" for f in a["variants"][0]["fields"]), f"{a['file']}:{a['line']}", "fields private: clients cannot forge an exclusive guard")
         ctx.ob("R11.3.guard_not_clone", EXCL, not prog.adt_impls(EXCL, "std::clone::Clone"), "", "the exclusive guard must not be Clone")
